@@ -16,6 +16,8 @@ pub(crate) struct TinyLFU {
     door_keeper: DoorKeeper,
     total_increments: u64,
     reset_counters_at: u64,
+    #[cfg(feature = "verif_hooks")]
+    verif_resets: u64,
 }
 
 impl TinyLFU {
@@ -25,6 +27,8 @@ impl TinyLFU {
             door_keeper: DoorKeeper::new(counters as DoorKeeperCapacity, 0.01),
             total_increments: 0,
             reset_counters_at: counters,
+            #[cfg(feature = "verif_hooks")]
+            verif_resets: 0,
         };
         info!(
             "Initialized TinyLFU with total counters {} ,bloom filter capacity {} and reset_counters_at {}",
@@ -73,6 +77,8 @@ impl TinyLFU {
 
     fn reset(&mut self) {
         debug!("Resetting tinyLFU");
+        #[cfg(feature = "verif_hooks")]
+        { self.verif_resets += 1; }
         self.total_increments = 0;
         self.key_access_frequency.reset();
         self.door_keeper.clear();
@@ -82,6 +88,8 @@ impl TinyLFU {
 #[cfg(feature = "verif_hooks")]
 impl TinyLFU {
     pub(crate) fn verif_progress(&self) -> (u64, u64) { (self.total_increments, self.reset_counters_at) }
+    /// How often the sketch has aged (halved its counters) so far.
+    pub(crate) fn verif_resets(&self) -> u64 { self.verif_resets }
 }
 
 /// Thin public wrapper for the verification harness (feature `verif_hooks` only).
